@@ -803,7 +803,19 @@ func (c *Ctx) ruleSitesPKGO() {
 		// the identifier path first restricts itself to objects of the current package (and then can never report):
 		// a positive comparison of an object's package path with pass.Pkg.Path() is part of the same-package test
 		si.take("local-object", func(l Lit) bool {
-			if l.Kind != "eq" || !l.Pos {
+			if l.Kind != "eq" {
+				return false
+			}
+			// (pkg(obj) == current) == <local flag>: the merged form of the two same-package tests
+			for _, pr := range [][2]ssa.Value{{l.X, l.Y}, {l.Y, l.X}} {
+				if bo, ok := pr[0].(*ssa.BinOp); ok && (bo.Op == token.EQL || bo.Op == token.NEQ) {
+					isCmp := (P.isPassPkgCall(bo.X, "Path") && c.rootsAre(bo.Y, c.isPathCall)) || (P.isPassPkgCall(bo.Y, "Path") && c.rootsAre(bo.X, c.isPathCall))
+					if isCmp && P.RootsAll(pr[1], func(r ssa.Value) bool { _, isC := constBool(r); return isC }) {
+						return true
+					}
+				}
+			}
+			if !l.Pos {
 				return false
 			}
 			return (P.isPassPkgCall(l.X, "Path") && c.rootsAre(l.Y, c.isPathCall)) || (P.isPassPkgCall(l.Y, "Path") && c.rootsAre(l.X, c.isPathCall))
@@ -874,6 +886,9 @@ func (c *Ctx) ruleSitesPKGO() {
 	}
 	for _, code := range []string{"PKGO01", "PKGO02", "PKGO03"} {
 		c.floor("report sites with code "+code, perCode[code], 1)
+		k := c.pkgoKinds[code]
+		c.check(k["SelectorExpr"] && k["Ident"], rule+"/DISPATCH-COVER", code, "", "reported for pkg.Item selectors and for plain identifiers",
+			code+" is not reached for both reference kinds (pkg.Item selector and plain identifier)")
 	}
 	c.count("report sites", len(sites))
 }
@@ -894,7 +909,7 @@ func dedupStrings(in []string) []string {
 func (c *Ctx) pkgoDispatch(si *siteInfo, rule string) {
 	P := c.P
 	where := P.Pos(si.S.Alloc.Pos())
-	paths := P.GuardPaths(si.S.Alloc)
+	paths := P.GuardPathsVia(si.S.Alloc, si.S.Via)
 	seenKinds := map[string]bool{}
 	okAll := true
 	for _, path := range paths {
@@ -942,11 +957,16 @@ func (c *Ctx) pkgoDispatch(si *siteInfo, rule string) {
 		seenKinds[nodeKind] = true
 	}
 	if okAll {
-		if seenKinds["SelectorExpr"] && seenKinds["Ident"] {
-			c.ok(rule+"/DISPATCH", si.Name, where, fmt.Sprintf("%d call paths: SelectorExpr and Ident references, object kind per code", len(paths)))
-		} else {
-			c.fail(rule+"/DISPATCH", si.Name, where, "site is not reached for both reference kinds (pkg.Item selector and plain identifier)")
-		}
+		c.ok(rule+"/DISPATCH", si.Name, where, fmt.Sprintf("%d call path(s): reference and object kind as the code requires", len(paths)))
+	}
+	if c.pkgoKinds == nil {
+		c.pkgoKinds = map[string]map[string]bool{}
+	}
+	if c.pkgoKinds[si.S.Code] == nil {
+		c.pkgoKinds[si.S.Code] = map[string]bool{}
+	}
+	for k := range seenKinds {
+		c.pkgoKinds[si.S.Code][k] = true
 	}
 	si.take("dispatch", func(l Lit) bool {
 		x, t, _ := typeAssertOK(l)
@@ -960,7 +980,7 @@ func (c *Ctx) tonl01Dispatch(si *siteInfo, rule string) {
 	P := c.P
 	where := P.Pos(si.S.Alloc.Pos())
 	kinds := map[string]bool{}
-	for _, path := range P.GuardPaths(si.S.Alloc) {
+	for _, path := range P.GuardPathsVia(si.S.Alloc, si.S.Via) {
 		k := "?"
 		for _, l := range path {
 			if x, t, _ := typeAssertOK(l); x != nil && l.Pos && strings.HasPrefix(typeStr(t), "*go/ast.") && c.roleOf(firstRoot(P, x), 0) == "node" {
